@@ -29,6 +29,14 @@ const char *vg_slen_ptr;
  * them; they are arbitrary, so this restricts nothing), vg_l3 free for a unit's own use */
 size_t vg_l1, vg_l2, vg_l3;
 
+/* memo of the last successful fgets (see the fgets stub): buffer, bytes stored, whether the last one is a newline.
+ * vg_stream_text: the unit declares the stream to be TEXT (no NUL bytes in the data); then the first NUL of a buffer
+ * just filled by fgets is exactly behind the data, and a newline is found by strchr iff it was delivered. */
+const char *vg_fgets_buf;
+size_t vg_fgets_got;
+_Bool vg_fgets_nl, vg_stream_text;
+#define VSTR_FGETS_MEMO(s) (vg_stream_text && vg_fgets_buf != (const char *) 0 && (s) == vg_fgets_buf)
+
 #define VSTR_MINIMAL_AT(s, r, i) __CPROVER_assume(!((i) < (r)) || (s)[(i)] != 0)
 #define VSTR_MINIMAL(s, r) do { VSTR_MINIMAL_AT(s, r, vg_k); VSTR_MINIMAL_AT(s, r, vg_j); \
         VSTR_MINIMAL_AT(s, r, vg_n1); VSTR_MINIMAL_AT(s, r, vg_n2); VSTR_MINIMAL_AT(s, r, vg_slen); \
@@ -38,6 +46,7 @@ size_t vg_l1, vg_l2, vg_l3;
 /* pure length oracle (writes nothing): some NUL position inside the object, minimal at the ghost instances */
 size_t vstr_len_pure(const char *s)
 {
+    if (VSTR_FGETS_MEMO(s)) return vg_fgets_got;       /* ASSUMES text stream, buffer untouched since fgets */
     size_t r = nondet_size_t();
     __CPROVER_assume(r < VREMAIN(s));
     __CPROVER_assume(s[r] == 0);
@@ -92,6 +101,9 @@ char *strdup(const char *s)
     __CPROVER_assert(__CPROVER_r_ok(s, 1), "strdup: argument readable");
     __CPROVER_assume(s != NULL && __CPROVER_r_ok(s, 1));
     size_t n = vstr_len_pure(s);
+#ifdef VSTR_STRDUP_RECORDS_LEN
+    vg_slen = n; vg_slen_ptr = s;          /* units that need "strdup measured the whole text" (dup) */
+#endif
     char *r = malloc(n + 1);
     memcpy(r, s, n + 1);
     return r;
@@ -199,6 +211,8 @@ char *strchr(const char *s, int c)
     __CPROVER_assert(__CPROVER_r_ok(s, 1), "strchr: argument readable");
     __CPROVER_assume(s != NULL && __CPROVER_r_ok(s, 1));       /* failures above are reported; valid calls only below */
     size_t n = vstr_len_pure(s);
+    if (VSTR_FGETS_MEMO(s) && (char) c == '\n')           /* a newline can only be the last byte fgets stored */
+        return vg_fgets_nl ? (char *) s + (vg_fgets_got - 1) : (char *) 0;
     if (nondet_bool()) {
         __CPROVER_assume((char) c != 0);
         __CPROVER_assume(!(vg_k < n) || s[vg_k] != (char) c);      /* no occurrence (instance vg_k) */
@@ -358,10 +372,11 @@ char *fgets(char *buf, int n, FILE *fp)
     __CPROVER_assume(!(vg_k < got - 1) || buf[vg_k] != '\n');
     vg_stream_left -= got;
     vg_stream_total += got;
-    if (vg_stream_left == 0) {
-        if (vg_stream_nl) { buf[got - 1] = '\n'; vg_stream_left = nondet_size_t(); vg_stream_nl = nondet_bool(); }
-        else __CPROVER_assume(buf[got - 1] != '\n');
-    } else __CPROVER_assume(buf[got - 1] != '\n');
+    _Bool nl = (vg_stream_left == 0 && vg_stream_nl);
+    if (nl) buf[got - 1] = '\n'; else __CPROVER_assume(buf[got - 1] != '\n');
+    if (vg_stream_text) __CPROVER_assume(buf[got - 1] != 0 && (!(vg_k < got) || buf[vg_k] != 0));
+    vg_fgets_buf = buf; vg_fgets_got = got; vg_fgets_nl = nl;
+    if (nl) { vg_stream_left = nondet_size_t(); vg_stream_nl = nondet_bool(); }      /* next line */
     return buf;
 }
 
@@ -394,7 +409,13 @@ ssize_t read(int fd, void *buf, size_t n)
         errno = e;
         return -1;
     }
+#ifndef VSTR_READ_DATA_UNOBSERVED
     if (got > 0) __CPROVER_havoc_slice(buf, got);
+#else
+    /* the unit's function never looks at the data and reads into a block that came from malloc/realloc, whose
+     * bytes are already arbitrary in cbmc's model: not overwriting them leaves them arbitrary.  Only for units
+     * whose obligations do not mention the bytes (init_from_fd: invariant, length, bounds). */
+#endif
     vg_read_total += got;
     return (ssize_t) got;
 }
